@@ -79,6 +79,14 @@ static void cell(size_t len, int align, int cls) {
         if (w) { char key[64]; snprintf(key, sizeof key, "address-or-tail-dependent:%s", w); vf_viol("C18", key, "%s gives different results for the same %zu bytes at another address / with other bytes behind the buffer", w, len); }
         hm_free(a2);
     }
+    /* the 16-byte result may be stored into the hashed buffer itself (in-place / a record holding its own digest): the value is that of the bytes passed in */
+    if (len >= 16 && align == 0) { unsigned char want5[16], wantm[16]; ref_md5(content, len, want5); ref_murmur3_128(content, len, wantm);
+        size_t off = len >= 24 && cls % 2 ? 8 : 0;
+        unsigned char *w1 = hm_alloc(len); memcpy(w1, content, len); bool ok = qhashmurmur3_128(w1, len, w1 + off);
+        if (!ok || memcmp(w1 + off, wantm, 16)) vf_viol("C18", "result-in-input:qhashmurmur3_128", "qhashmurmur3_128 with the result stored at offset %zu of the %zu hashed bytes differs from the reference", off, len);
+        memcpy(w1, content, len); ok = qhashmd5(w1, len, w1 + off);
+        if (!ok || memcmp(w1 + off, want5, 16)) vf_viol("C18", "result-in-input:qhashmd5", "qhashmd5 with the result stored at offset %zu of the %zu hashed bytes differs from the reference", off, len);
+        hm_free(w1); vf_count("results_stored_into_the_hashed_buffer", 2); }
     vf_san_poll();
     hm_free(a1); hm_free(content);
     vf_count("evaluations", 1); vf_count("cells", 1);
